@@ -46,7 +46,7 @@ def work(job):
             at, pres = c["atoms"], {"p_index": 0, "as_generated": True}
         else:
             at, pres = crystals.present(c["atoms"], rng, p_index=(sg + stream + 3 * j) % len(crystals.PRESENT_P), unwrap=bool(j % 2 == 0))
-        r = {"sg": sg, "cid": "%d/%d/%s" % (sg, stream, "".join(letters or [])), "j": j, "pres": pres, "gen_letters": c["letters"],
+        r = {"sg": sg, "cid": "%d/%d/%s" % (sg, stream, "".join(letters or [])), "j": j, "pres": pres, "gen_letters": c["letters"], "two_dimensional": False,
              "gen_species": c["species"]}
         try:
             if crystals.spg_number(at, crystals.TOL) != sg or len(at) > 4 * max_atoms:
@@ -55,6 +55,15 @@ def work(job):
                 # histories: every second presentation goes to the analyzer object that analysed the previous one
                 # (set_system), and the getters are called in a shuffled order first
                 reuse = analyzers[-1] if (j % 2 == 1 and analyzers) else None
+                if j == 0 and stream % 2 == 1:
+                    # ... and every second crystal is first seen by an analyzer that analysed another (achiral) crystal
+                    from ase.build import bulk
+                    from matid.symmetry import SymmetryAnalyzer
+
+                    reuse = SymmetryAnalyzer(bulk("NaCl", "rocksalt", a=5.64), symmetry_tol=crystals.TOL)
+                    reuse.get_conventional_system()
+                    reuse.get_is_chiral()
+                    reuse.get_wyckoff_letters_original()
                 order = [GETTERS[i] for i in rng.permutation(len(GETTERS))[: 3]] if j >= 1 else None
                 r["history"] = {"reused": reuse is not None, "order": order or []}
                 r.update(symrun.observe(at, with_params=mode in ("C08", "all"), reuse=reuse, keep=analyzers, order=order))
